@@ -785,6 +785,8 @@ def lin(ctx, t, depth=0):
         return {"<loop>": Fraction(1)}
     if k == "call":
         return {term_str(t): Fraction(1)}
+    if k in ("some", "ok", "await", "variant", "index"):
+        return {term_str(t): Fraction(1)}   # an opaque value (e.g. the element an iterator yields)
     if k == "join":
         non = [x for x in t[1] if not contains(x, lambda s: isinstance(s, tuple) and s and s[0] == "cycle")]
         cyc = [x for x in t[1] if x not in non]
@@ -821,6 +823,29 @@ def lin(ctx, t, depth=0):
 def mkjoin_(xs):
     from .analysis import mkjoin
     return mkjoin(list(xs))
+
+
+def loop_sum(term):
+    """if term is the value of an accumulator `acc = init; loop { acc = acc + x }` after the loop,
+    returns (init term, addend term x) else None"""
+    t = unwrap_ovf(strip(term))
+    if t[0] != "join":
+        return None
+    init, step = None, None
+    for m in t[1]:
+        m = unwrap_ovf(strip(m))
+        if m[0] == "bin" and m[1] == "Add":
+            a, b = m[2], m[3]
+            ca = contains(a, lambda q: isinstance(q, tuple) and q and q[0] == "cycle")
+            cb = contains(b, lambda q: isinstance(q, tuple) and q and q[0] == "cycle")
+            if ca != cb:
+                step = b if ca else a
+                continue
+        if not contains(m, lambda q: isinstance(q, tuple) and q and q[0] == "cycle"):
+            init = m
+    if step is None or init is None:
+        return None
+    return init, step
 
 
 def named_local(fa, operand, bi, pos):
